@@ -96,7 +96,7 @@ def c10(ctx):
     ppn = edges_pn(ctx, impls=("raw",))
     run_script(ctx, sweep_roundtrip(ctx, variant_paths(ppn), "pn", 0, 1500), "roundtrip-in-every-explored-state")
     res, trace = run_script(ctx, gen.roundtrip_pn(ctx.rng, ctx.q(6000, 60000)), "roundtrip-pn")
-    run_script(ctx, gen.sweep_pn_values(ctx.rng, "pn", step=ctx.q(2, 1)), "value-sweep-pn")
+    run_script(ctx, gen.sweep_pn_values(ctx.rng, "pn", step=1), "value-sweep-pn")     # every parameter number, every 14-bit value
     canary(ctx, trace, lambda rows, rng: _corrupt_group_out(rows, rng, ctx.rng.choice(["rtpn", "run"])))
     ctx.rule = ("design: invariants I_C10 / I_C10run hold in every reachable machine state (TLC): every abstract "
                 "message's LSB-first encoding and the running forms (3 repetitions) are inverted; code: complete "
@@ -128,7 +128,7 @@ def c13(ctx):
     # smoke run of the PRODUCTION configuration (guard off, real std::time::Instant): histories whose
     # reports do not depend on how much time passes (timeout 0: every poll is late; Duration::MAX: none is)
     rows = gen.random_poll(ctx.rng, ctx.q(6000, 60000), timeouts=[0, -1], first_id=900)
-    rows = [r for r in rows if r["op"] != "tick" and "toh" not in r]
+    rows = [r for r in rows if r["op"] != "tick"]
     script = ctx.work.fresh("script_real-clock_", "ndjson")
     write_ndjson(script, rows)
     from common import exec_script
